@@ -71,7 +71,7 @@ Proof.
   destruct (proj2 (zupd_some_iff line col (f old))) as [line' El]; [lia|]. rewrite El.
   destruct (proj2 (zupd_some_iff (sbuf s) row line')) as [b Eb]; [lia|]. rewrite Eb.
   exists (mkScreen (scols s) (srows s) b), old. cbn [scols srows sbuf].
-  split; [reflexivity|]. split; [|split; [apply same_dims_refl|]].
+  split; [reflexivity|]. split; [|split; [split; reflexivity|]].
   - split; cbn [scols srows sbuf].
     + rewrite (zupd_length _ _ _ _ Eb); exact Hl.
     + rewrite Forall_forall; intros l Hin.
@@ -159,7 +159,7 @@ Proof.
     destruct ((row <? 0) || (col <? 0)) eqn:E2.
     { replace ((px + fcol f <=? px + fcol f + col) && (px + fcol f + col <? px + fcol f + fw f) && (py + frow f <=? py + frow f + row) && (py + frow f + row <? py + frow f + fh f)) with false by lia. reflexivity. }
     replace ((px + fcol f <=? px + fcol f + col) && (px + fcol f + col <? px + fcol f + fw f) && (py + frow f <=? py + frow f + row) && (py + frow f + row <? py + frow f + fh f)) with true by lia.
-    rewrite IH, Ep; cbn [fst snd andb].
+    rewrite IH; cbn [fst snd andb].
     replace (px + (col + fcol f)) with (px + fcol f + col) by lia.
     replace (py + (row + frow f)) with (py + frow f + row) by lia. reflexivity.
 Qed.
@@ -184,7 +184,7 @@ Proof.
     destruct ((row <? 0) || (col <? 0)) eqn:E2.
     { replace ((px + fcol f <=? px + fcol f + col) && (px + fcol f + col <? px + fcol f + fw f) && (py + frow f <=? py + frow f + row) && (py + frow f + row <? py + frow f + fh f)) with false by lia. reflexivity. }
     replace ((px + fcol f <=? px + fcol f + col) && (px + fcol f + col <? px + fcol f + fw f) && (py + frow f <=? py + frow f + row) && (py + frow f + row <? py + frow f + fh f)) with true by lia.
-    rewrite IH, Ep; cbn [fst snd andb].
+    rewrite IH; cbn [fst snd andb].
     replace (px + (col + fcol f)) with (px + fcol f + col) by lia.
     replace (py + (row + frow f)) with (py + frow f + row) by lia. reflexivity.
 Qed.
@@ -214,4 +214,266 @@ Proof.
   destruct (in_clip w X Y); cbn [andb].
   - apply screen_setstyle_spec; exact H.
   - exists s; split; reflexivity.
+Qed.
+
+(* ------------------------------------------------------------------ sequences of placements *)
+
+Lemma visible_dims w s s' x y : same_dims s s' -> visible w s' x y = visible w s x y.
+Proof. intros [H1 H2]; unfold visible, on_screen; rewrite H1, H2; reflexivity. Qed.
+
+Lemma foldM_app {A S} (f : S -> A -> option S) (a b : list A) (s : S) :
+  foldM f (a ++ b) s = match foldM f a s with None => None | Some s' => foldM f b s' end.
+Proof.
+  revert s; induction a as [|x t IH]; intros s; cbn [foldM app]; [reflexivity|].
+  destruct (f s x); [apply IH|reflexivity].
+Qed.
+
+Lemma draw_places_app w s a b :
+  draw_places w s (a ++ b) = match draw_places w s a with None => None | Some s' => draw_places w s' b end.
+Proof. apply foldM_app. Qed.
+
+(* the screen after a sequence of placements: inside the clip the last cell placed at a
+   point, everywhere else the old content; and it never panics on a well-formed screen *)
+Lemma draw_exact w ps : forall s,
+  WF s ->
+  exists s', draw_places w s ps = Some s' /\ WF s' /\ same_dims s s' /\
+    forall X Y, sget s' X Y =
+      if visible w s X Y
+      then match last_at ps (X - fst (origin w)) (Y - snd (origin w)) with
+           | Some c => Some c
+           | None => sget s X Y
+           end
+      else sget s X Y.
+Proof.
+  induction ps as [|[[x y] c] t IH]; intros s H.
+  - exists s; split; [reflexivity|]. split; [exact H|]. split; [apply same_dims_refl|].
+    intros X Y; cbn [last_at]; destruct (visible w s X Y); reflexivity.
+  - unfold draw_places; cbn [foldM fst snd].
+    destruct (setcell_clip w s x y c H) as (s1 & E1 & H1). rewrite E1.
+    set (X0 := fst (origin w) + x) in *. set (Y0 := snd (origin w) + y) in *.
+    assert (Hs1 : WF s1 /\ same_dims s s1).
+    { destruct (visible w s X0 Y0); [destruct H1 as (? & ? & _); auto | subst s1; split; [exact H|apply same_dims_refl]]. }
+    destruct Hs1 as [Hwf1 Hd1].
+    destruct (IH s1 Hwf1) as (s' & E' & Hwf' & Hd' & Hget). fold (draw_places w s1 t). rewrite E'.
+    exists s'; split; [reflexivity|]. split; [exact Hwf'|]. split; [eapply same_dims_trans; eauto|].
+    intros X Y. rewrite Hget, (visible_dims w s s1 X Y Hd1). cbn [last_at fst snd].
+    destruct (visible w s X Y) eqn:EV.
+    + destruct (last_at t (X - fst (origin w)) (Y - snd (origin w))); [reflexivity|].
+      destruct ((x =? X - fst (origin w)) && (y =? Y - snd (origin w))) eqn:EQ.
+      * assert (X = X0 /\ Y = Y0) as [-> ->] by (unfold X0, Y0; lia).
+        rewrite EV in H1. destruct H1 as (_ & _ & (old & _ & Hn) & _). exact Hn.
+      * destruct (visible w s X0 Y0); [|subst s1; reflexivity].
+        destruct H1 as (_ & _ & _ & Hrest). apply Hrest. unfold X0, Y0; lia.
+    + destruct (visible w s X0 Y0) eqn:EV0; [|subst s1; reflexivity].
+      destruct H1 as (_ & _ & _ & Hrest). apply Hrest.
+      destruct (Z.eq_dec X X0) as [->|]; [|auto]. destruct (Z.eq_dec Y Y0) as [->|]; [|auto]. congruence.
+Qed.
+
+(* nothing outside the clip changes *)
+Definition clipped (w : window) (s s' : screen) : Prop :=
+  WF s' /\ same_dims s s' /\ forall X Y, visible w s X Y = false -> sget s' X Y = sget s X Y.
+
+Lemma draw_places_clipped w ps s :
+  WF s -> exists s', draw_places w s ps = Some s' /\ clipped w s s'.
+Proof.
+  intros H. destruct (draw_exact w ps s H) as (s' & E & Hwf & Hd & Hget).
+  exists s'; split; [exact E|]. split; [exact Hwf|]. split; [exact Hd|].
+  intros X Y HV. rewrite Hget, HV. reflexivity.
+Qed.
+
+(* ------------------------------------------------------------------ the text helpers are their layouts *)
+
+Section TextProofs.
+Variable measure : text -> Z.
+Variable remeasure : bool.
+Variable trailing : text -> bool.
+
+Notation cwidth := (char_width measure remeasure).
+
+Lemma draw_places_cons w s p ps :
+  draw_places w s (p :: ps) =
+  match win_setcell w s (fst (fst p)) (snd (fst p)) (snd p) with
+  | None => None
+  | Some s' => draw_places w s' ps
+  end.
+Proof. reflexivity. Qed.
+
+Lemma print_loop_places w cols rows items : forall s col row,
+  print_loop measure remeasure w cols rows items s col row =
+  match draw_places w s (fst (print_places measure remeasure cols rows items col row)) with
+  | None => None
+  | Some s' => Some (s', snd (print_places measure remeasure cols rows items col row))
+  end.
+Proof.
+  induction items as [|[ch st] t IH]; intros s col row; cbn [print_loop print_places].
+  - reflexivity.
+  - destruct (has_nl (gr ch)); [apply IH|].
+    destruct (row >? rows); [reflexivity|].
+    destruct (fit cols col row (cwidth ch)) as [[c1 r1]|]; [|apply IH].
+    cbn [fst snd]. rewrite draw_places_cons; cbn [fst snd].
+    destruct (win_setcell w s c1 r1 (mkCell (gr ch) (cwidth ch) st)) as [s1|]; [|reflexivity].
+    destruct (c1 + cwidth ch >=? cols); apply IH.
+Qed.
+
+Lemma ptrunc_loop_places w cols items : forall s col row,
+  ptrunc_loop measure remeasure w cols items s col row =
+  draw_places w s (ptrunc_places measure remeasure cols items col row).
+Proof.
+  induction items as [|[ch st] t IH]; intros s col row; cbn [ptrunc_loop ptrunc_places].
+  - reflexivity.
+  - destruct (col + 1 + cwidth ch >? cols).
+    + rewrite draw_places_cons; cbn [fst snd].
+      destruct (win_setcell w s col row (mkCell ellipsis 1 st)); reflexivity.
+    + rewrite draw_places_cons; cbn [fst snd].
+      destruct (win_setcell w s col row (mkCell (gr ch) (cwidth ch) st)); [apply IH|reflexivity].
+Qed.
+
+Lemma println_loop_places w cols items : forall s col row,
+  println_loop measure remeasure w cols items s col row =
+  draw_places w s (println_places measure remeasure cols items col row).
+Proof.
+  induction items as [|[ch st] t IH]; intros s col row; cbn [println_loop println_places].
+  - reflexivity.
+  - destruct (col + cwidth ch >? cols); [reflexivity|].
+    rewrite draw_places_cons; cbn [fst snd].
+    destruct (win_setcell w s col row (mkCell (gr ch) (cwidth ch) st)); [apply IH|reflexivity].
+Qed.
+
+Lemma wrap_chars_places_eq w cols chars st : forall s col row,
+  wrap_chars trailing w cols chars st s col row =
+  match draw_places w s (fst (wrap_chars_places trailing cols chars st col row)) with
+  | None => None
+  | Some s' => Some (s', snd (wrap_chars_places trailing cols chars st col row))
+  end.
+Proof.
+  induction chars as [|ch t IH]; intros s col row; cbn [wrap_chars wrap_chars_places].
+  - reflexivity.
+  - destruct (trailing (gr ch)); [apply IH|].
+    destruct (fit cols col row (wd ch)) as [[c1 r1]|]; [|apply IH].
+    cbn [fst snd]. rewrite draw_places_cons; cbn [fst snd].
+    destruct (win_setcell w s c1 r1 (mkCell (gr ch) (wd ch) st)) as [s1|]; [|reflexivity].
+    destruct (c1 + wd ch >=? cols); apply IH.
+Qed.
+
+Lemma wrap_loop_places w cols rows lsegs : forall s col row,
+  wrap_loop measure remeasure trailing w cols rows lsegs s col row =
+  match draw_places w s (fst (wrap_places measure remeasure trailing cols rows lsegs col row)) with
+  | None => None
+  | Some s' => Some (s', snd (wrap_places measure remeasure trailing cols rows lsegs col row))
+  end.
+Proof.
+  induction lsegs as [|[cls st] t IH]; intros s col row; cbn [wrap_loop wrap_places].
+  - reflexivity.
+  - destruct (row >=? rows); [reflexivity|].
+    set (chars := characters cls). set (total := zsum (map cwidth chars)).
+    unfold wrap_start.
+    set (start := if total >? cols then (col, row) else if total + col >? cols then (0, row + 1) else (col, row)).
+    destruct start as [c0 r0] eqn:Es. cbn [fst snd].
+    rewrite wrap_chars_places_eq. rewrite draw_places_app.
+    destruct (draw_places w s (fst (wrap_chars_places trailing cols chars st c0 r0))) as [s1|]; [|reflexivity].
+    destruct (snd (wrap_chars_places trailing cols chars st c0 r0)) as [c2 r2]. cbn [fst snd].
+    apply IH.
+Qed.
+
+End TextProofs.
+
+(* ------------------------------------------------------------------ Fill *)
+
+Definition fill_places (cols rows : Z) (c : cell) : list placement :=
+  flat_map (fun row => map (fun col => (col, row, c)) (zrange cols)) (zrange rows).
+
+Lemma foldM_map {A B S} (f : S -> B -> option S) (g : A -> B) (l : list A) (s : S) :
+  foldM f (map g l) s = foldM (fun s x => f s (g x)) l s.
+Proof. revert s; induction l as [|x t IH]; intros s; cbn [foldM map]; [reflexivity|]. destruct (f s (g x)); auto. Qed.
+
+Lemma foldM_flat_map {A B S} (f : S -> B -> option S) (h : A -> list B) (l : list A) (s : S) :
+  foldM f (flat_map h l) s = foldM (fun s x => foldM f (h x) s) l s.
+Proof.
+  revert s; induction l as [|x t IH]; intros s; cbn [foldM flat_map]; [reflexivity|].
+  rewrite foldM_app. destruct (foldM f (h x) s); auto.
+Qed.
+
+Lemma win_fill_places w s c :
+  win_fill w s c = draw_places w s (fill_places (fw (wframe w)) (fh (wframe w)) c).
+Proof.
+  unfold win_fill, win_size, draw_places, fill_places. rewrite foldM_flat_map.
+  assert (E : forall (rows : list Z) s0,
+    foldM (fun s1 row => foldM (fun s2 col => win_setcell w s2 col row c) (zrange (fw (wframe w))) s1) rows s0 =
+    foldM (fun s1 x => foldM (fun s2 p => win_setcell w s2 (fst (fst p)) (snd (fst p)) (snd p))
+                            (map (fun col => (col, x, c)) (zrange (fw (wframe w)))) s1) rows s0).
+  { induction rows as [|r t IH]; intros s0; cbn [foldM]; [reflexivity|].
+    rewrite foldM_map; cbn [fst snd].
+    destruct (foldM (fun s2 x => win_setcell w s2 x r c) (zrange (fw (wframe w))) s0); auto. }
+  apply E.
+Qed.
+
+Lemma In_zrange n i : In i (zrange n) <-> 0 <= i < n.
+Proof.
+  unfold zrange; rewrite in_map_iff; split.
+  - intros (k & <- & Hk); apply in_seq in Hk; lia.
+  - intros H; exists (Z.to_nat i); split; [lia|]. apply in_seq; lia.
+Qed.
+
+Lemma In_fill_places cols rows c p :
+  In p (fill_places cols rows c) <-> snd p = c /\ 0 <= fst (fst p) < cols /\ 0 <= snd (fst p) < rows.
+Proof.
+  unfold fill_places; rewrite in_flat_map; split.
+  - intros (r & Hr & Hp). apply in_map_iff in Hp as (cl & <- & Hc). apply In_zrange in Hr, Hc. cbn [fst snd]; auto.
+  - intros (Hc & Hx & Hy). destruct p as [[x y] c']; cbn [fst snd] in *; subst c'.
+    exists y; split; [apply In_zrange; exact Hy|]. apply in_map_iff; exists x; split; [reflexivity|apply In_zrange; exact Hx].
+Qed.
+
+Lemma last_at_uniform ps c col row :
+  (forall p, In p ps -> snd p = c) ->
+  (exists p, In p ps /\ fst (fst p) = col /\ snd (fst p) = row) ->
+  last_at ps col row = Some c.
+Proof.
+  induction ps as [|p t IH]; intros Hall (q & Hin & Hx & Hy); [destruct Hin|]. cbn [last_at].
+  destruct (last_at t col row) as [c'|] eqn:E.
+  - destruct Hin as [->|Hin].
+    + (* something later is also there: it carries c too *)
+      clear IH. revert E. assert (Ht : forall p, In p t -> snd p = c) by (intros; apply Hall; right; auto).
+      clear Hall. induction t as [|p' t' IH']; cbn [last_at]; [discriminate|].
+      destruct (last_at t' col row) eqn:E'.
+      * intros H; apply IH'; [intros; apply Ht; right; auto|exact H].
+      * destruct ((fst (fst p') =? col) && (snd (fst p') =? row)); [|discriminate].
+        intros H; injection H as <-. f_equal; apply Ht; left; reflexivity.
+    + rewrite <- E; apply IH; [intros; apply Hall; right; auto|eauto].
+  - destruct Hin as [->|Hin].
+    + replace ((fst (fst q) =? col) && (snd (fst q) =? row)) with true by lia.
+      f_equal; apply Hall; left; reflexivity.
+    + rewrite IH in E; [discriminate|intros; apply Hall; right; auto|eauto].
+Qed.
+
+Lemma last_at_none ps col row :
+  (forall p, In p ps -> fst (fst p) <> col \/ snd (fst p) <> row) -> last_at ps col row = None.
+Proof.
+  induction ps as [|p t IH]; intros H; cbn [last_at]; [reflexivity|].
+  rewrite IH by (intros; apply H; right; auto).
+  specialize (H p (or_introl eq_refl)).
+  destruct ((fst (fst p) =? col) && (snd (fst p) =? row)) eqn:E; [lia|reflexivity].
+Qed.
+
+Lemma in_clip_in_rect w x y : in_clip w x y = true -> in_rect w x y = true.
+Proof. destruct w; cbn [in_clip]; [auto|]. intros H; apply andb_prop in H; tauto. Qed.
+
+Lemma in_rect_range w x y :
+  in_rect w x y = true ->
+  0 <= x - fst (origin w) < fw (wframe w) /\ 0 <= y - snd (origin w) < fh (wframe w).
+Proof. unfold in_rect; destruct (origin w) as [ox oy]; cbn [fst snd]; lia. Qed.
+
+(* Fill: afterwards exactly the clip carries the cell *)
+Lemma fill_exact w s c :
+  WF s -> exists s', win_fill w s c = Some s' /\ WF s' /\ same_dims s s' /\
+    forall X Y, sget s' X Y = if visible w s X Y then Some c else sget s X Y.
+Proof.
+  intros H. rewrite win_fill_places.
+  destruct (draw_exact w (fill_places (fw (wframe w)) (fh (wframe w)) c) s H) as (s' & E & Hwf & Hd & Hget).
+  exists s'; split; [exact E|]. split; [exact Hwf|]. split; [exact Hd|].
+  intros X Y; rewrite Hget. destruct (visible w s X Y) eqn:EV; [|reflexivity].
+  unfold visible in EV. apply andb_prop in EV as [EC _]. apply in_clip_in_rect, in_rect_range in EC.
+  rewrite (last_at_uniform _ c); [reflexivity| |].
+  - intros p Hp; apply In_fill_places in Hp; tauto.
+  - exists (X - fst (origin w), Y - snd (origin w), c); split; [|split; reflexivity].
+    apply In_fill_places; cbn [fst snd]; tauto.
 Qed.
